@@ -699,6 +699,10 @@ class TX:
                 a, n = self.expr(e.value, env), self.expr(sl.upper, env)
                 if a[1][0] == 'L' and n[1] == T_Z:
                     return '(py_slice_to %s %s)' % (a[0], n[0]), a[1]
+            if isinstance(sl, ast.Slice) and sl.lower is None and sl.upper is None and ast.unparse(sl.step or ast.Constant(value=1)) == '-1':
+                a = self.expr(e.value, env)
+                if a[1][0] == 'L':
+                    return '(rev %s)' % a[0], a[1]            # l[::-1]
             if not isinstance(sl, ast.Slice):
                 a = self.expr(e.value, env)
                 # t[0] / t[1] of a pair
@@ -775,7 +779,8 @@ class TX:
                 'Type', 'Prop', 'Set', 'return', 'where', 'for', 'using', 'pair', 'fst', 'snd', 'map', 'filter', 'flat_map', 'list',
                 'nat', 'Z', 'Q', 'C', 'cons', 'nil', 'bool', 'true', 'false', 'inl', 'inr', 'sum', 'seq', 'repeat', 'length', 'app',
                 'Some', 'None', 'option', 'negb', 'andb', 'orb', 'inject_Z', 'cmem', 'sort_desc', 'Qle_bool', 'get_n_best', 'res',
-                'unit', 'tt', 'String', 'string', 'pyexn', 'it_'}
+                'unit', 'tt', 'String', 'string', 'pyexn', 'it_', 'st_', 'rev', 'fold_left', 'Cand', 'TieR', 'Gen', 'combine', 'nth_error',
+                'firstn', 'concat', 'eqv', 'sort_asc', 'insert_desc', 'insert_asc', 'first_eq_index'}
 
     def ident(self, name):
         """Coq identifier for a Python name: injective (a name that had to be changed carries a quote, which no Python
@@ -1003,6 +1008,13 @@ class TX:
         # list(sorted(S, key=f)) / sorted(S, key=f): a permutation of S; the order is NOT translated (result typed as a set)
         if name == 'list' and len(args) == 1 and not kw and isinstance(args[0], ast.Call) and ast.unparse(args[0].func) == 'sorted':
             return self.call(args[0], env)
+        if name == 'list' and len(args) == 1 and not kw and isinstance(args[0], ast.Call) and isinstance(args[0].func, ast.Name) \
+                and args[0].func.id == 'reversed' and len(args[0].args) == 1 and not args[0].keywords:
+            self.builtin('reversed', e, env)
+            a = self.expr(args[0].args[0], env)
+            if a[1][0] == 'L':
+                return '(rev %s)' % a[0], a[1]      # list(reversed(l))
+            die(e, 'reversed of a %s' % (a[1],))
         if name == 'list' and len(args) == 1 and not kw:
             a = self.expr(args[0], env)
             if a[1][0] == 'L':
